@@ -4,12 +4,35 @@
   Property theorems only.  `F : File` is the pure (stateless) side of one opened file: the parse functions
   `_parse_CU_at_offset` and `DIE(cu, stream, offset)` enter as PARAMETERS that are pure in (file, offset) — for the
   code this is the content of the absolute `seek` before every parse, which the correspondence run checks
-  (harness/props/c10.py runs the same op list through `step` and through the live object and compares every answer,
+  (harness/props/c10.py runs the same op list through the model and through the live object and compares every answer,
   the abstract cache state AND the position of the `.debug_info` stream after every operation).
   `FileWF F cs`: parse results carry the offset they were parsed at, the section is the units `cs` back to back
   (`Chain`, C13), nothing parses as a DIE below a unit's first DIE.  `OpValid`: unit offsets passed to lookups are
   unit starts (an invalid `get_CU_at` offset poisons the unit cache by design; out of scope as the design states).
   DIE offsets are NOT restricted.
+
+  What is proved (no `sorry`), by wave:
+    1  `Inv` kept by every operation; lookups answer their stateless meaning (`answer_refines_partial` …);
+    2/3 with the tree-shaped layout `TreeWF` as file hypothesis: `InvT`, `answer_refines` for navigation and for the
+       generators, `suspended_generator_kth`, `random_access_eq_sequential`;
+    4  `Query` now contains EVERY operation except creating / resuming a handle (those are `new_generator_handle` /
+       `suspended_generator_kth`): reference following (`ref`, unit-relative and DW_FORM_ref_addr) and the pubnames
+       lookup joined it; `iter_siblings` is a generator kind (`take` / `it_new` / `next`, partially consumed,
+       interleaved); and the cache layer `Model/HistoryCaches.lean` (`xstep`) adds the abbreviation-table caches
+       (`_abbrevtable_cache`, `CompileUnit._abbrev_table` — the DIE constructor of the base model is fed with the
+       table the caches hold, and `die_parse_independent_of_abbrev_caches` shows the base machine runs on the
+       stateless file in every reachable state), the `LineProgram` objects of `_linetable_cache` (header, decoded
+       entries) and `CallFrameInfo` objects (`entries`, `_entry_cache` with forward CIE pointers, FDE → CIE
+       sharing, retries after a parse that raised) with invariant `XInvT` and refinement `xanswer_refines`.
+  Hypotheses that remain (each with a concrete witness below): `TreeWF` for navigation; a sibling GENERATOR is
+  covered for entries that have an owner (for the top entry the generator raises at its first `next()`, which
+  `step_siblings_T` proves for the list form in every state); `LPWF` (units sharing a line program share its structs;
+  no DW_LNE_define_file — the known finding); `CfiWF` (a fresh parse of a CFI entry ends where its length field
+  says) and the model's fuel suffices for the reference enumeration.
+  Correspondence / exploration only: section, segment and symbol access by index and iteration, section data,
+  aranges (no cache state of their own beyond the two name maps, which are proved); the stream positions of the
+  sections other than `.debug_info` (every parse there starts with an absolute seek; after the fix for
+  `_parse_entry_at` this includes the cache-hit path of CFI).
 
   No struct bundle or generated table is used by this property, so there is no `TieC10`.
 -/
@@ -17,6 +40,9 @@ import PyElf.Model.History
 import PyElf.Proofs.History
 import PyElf.Proofs.HistoryState
 import PyElf.Proofs.DwarfLookup
+import PyElf.Model.HistoryCaches
+import PyElf.Proofs.HistoryCfi
+import PyElf.Proofs.HistoryCaches
 namespace PyElf.Props.C10
 open PyElf PyElf.Model.Lookup PyElf.Model.C10 PyElf.Proofs.Lookup PyElf.Proofs.C10
 
@@ -152,8 +178,9 @@ theorem invT_run {F : File} {cs : List CU} {T : Nat → DTree} (wf : FileWF F cs
 
 /-- `Inv s → (step s op).1 = answer file op` for every query (`Query`: everything except creating / resuming a
     handle, whose answers are by nature relative to the handle — see `suspended_generator_kth`): the lookups AND
-    `iter_children`, `get_parent`, the first `n` items and the full list of the CU, DIE-subtree and children
-    generators. -/
+    `iter_children`, `get_parent`, `iter_siblings`, reference following (`get_DIE_from_attribute`, unit-relative
+    and `DW_FORM_ref_addr`), the `.debug_pubnames` lookup with `get_DIE_from_lut_entry`, the first `n` items and
+    the full list of the CU, DIE-subtree, children and sibling generators. -/
 theorem answer_refines {F : File} {cs : List CU} {T : Nat → DTree} (wf : FileWF F cs) (tw : TreeWF F cs T) {st : State}
     {g : Ghost} (hinv : InvT F cs T g st) {op : Op} (hv : OpValidT F cs T op) (hq : Query op) :
     (step F st op).1 = answer F op :=
@@ -240,6 +267,46 @@ theorem random_access_eq_sequential {F : File} {cs : List CU} {T : Nat → DTree
   obtain ⟨st', h1, _⟩ := dieAt_ok wf tw (invT_run wf tw ops hops) hc hx
   refine ⟨by rw [h1], ?_⟩
   simp only [step, h1]
+
+/-- `list(die.iter_siblings())` / the sibling generator of an entry that has an owner: the other non-null entries
+    of the owner's sibling list, in order (fourth wave: also as a generator kind for `take` / `it_new` / `next`,
+    so `suspended_generator_kth` covers partially consumed sibling iteration interleaved with anything) -/
+theorem iter_siblings_exact {F : File} {cs : List CU} {T : Nat → DTree} (wf : FileWF F cs) (tw : TreeWF F cs T) {st : State}
+    {g : Ghost} (hinv : InvT F cs T g st) {c : CU} (hc : c ∈ cs) {x : DTree × Option DIE}
+    (hx : x ∈ ents none (T c.cuOffset)) {n : DTree} {q : Option DIE} (hn : (n, q) ∈ ents none (T c.cuOffset))
+    (hp : x.2 = some n.d) (k : Nat) :
+    (step F st (.all (.siblings c.cuOffset x.1.d.offset))).1
+        = .ok (.list ((sibFilter x.1.d.offset (kidsOut n.kids)).map (·.offset))) ∧
+    (step F st (.take (.siblings c.cuOffset x.1.d.offset) k)).1
+        = .ok (.list (((sibFilter x.1.d.offset (kidsOut n.kids)).map (·.offset)).take k)) ∧
+    (step F st (.siblings c.cuOffset x.1.d.offset)).1 = (step F st (.all (.siblings c.cuOffset x.1.d.offset))).1 := by
+  have hk : KindEnum cs T (.siblings c.cuOffset x.1.d.offset) ((sibFilter x.1.d.offset (kidsOut n.kids)).map (·.offset)) :=
+    ⟨⟨c, hc, rfl⟩, x, hx, rfl, n, q, hn, hp, rfl⟩
+  refine ⟨(step_all_T wf tw hinv hk).1, (step_take_T wf tw hinv hk k).1, ?_⟩
+  rw [(step_all_T wf tw hinv hk).1]
+  rcases (step_siblings_T wf tw hinv hc hx).1 with ⟨hp', _⟩ | ⟨n', q', hn', hp', _, h1⟩
+  · rw [hp] at hp'; cases hp'
+  · have hnn : (n, q) = (n', q') := tw_unique (treeWF_tw wf tw hc) hn hn' (by
+      rw [hp] at hp'; injection hp' with hp'; rw [hp'])
+    injection hnn with e1 _
+    subst e1
+    exact h1
+
+/-- reference following, closed form of the `.debug_pubnames` path: the row of the table and the pure parse at
+    the offsets it names (`get_DIE_from_lut_entry` = `get_CU_at(cu_ofs).get_DIE_from_refaddr(die_ofs)`) -/
+theorem pubname_exact {F : File} {cs : List CU} (wf : FileWF F cs) {st : State} (hinv : Inv F cs st) {name : String}
+    {tbl : List (String × Nat × Nat)} (hp : F.pubnames = some tbl) {c : CU} (hc : c ∈ cs) {sz : Nat}
+    (hsz : c.size = .ok sz) {nm : String} {dieo : Nat} (hf : tbl.find? (·.1 == name) = some (nm, c.cuOffset, dieo)) :
+    (step F st (.pubname name)).1 = (pureRefaddr F c sz dieo).map (fun d => Ans.list [c.cuOffset, dieo, d.offset]) :=
+  step_pubname wf hinv hp hc hsz hf
+
+/-- `get_DIE_from_attribute` and the pubnames lookup only need the cache invariant (no tree hypothesis): two
+    states satisfying `Inv` answer alike -/
+theorem ref_pubname_state_independent {F : File} {cs : List CU} (wf : FileWF F cs) {st st' : State} (hinv : Inv F cs st)
+    (hinv' : Inv F cs st') :
+    (∀ cu off name, OpValid F cs (.ref cu off name) → (step F st (.ref cu off name)).1 = (step F st' (.ref cu off name)).1) ∧
+    (∀ name, OpValid F cs (.pubname name) → (step F st (.pubname name)).1 = (step F st' (.pubname name)).1) :=
+  ⟨fun _ _ _ hv => step_ref_eq wf hinv hinv' hv, fun _ hv => step_pubname_eq wf hinv hinv' hv⟩
 
 /-! ### non-vacuity: a concrete file -/
 
@@ -365,5 +432,292 @@ example :
   obtain ⟨l, h1, h2⟩ := step_itNext_T exFile_wf exFile_tree (invT_run exFile_wf exFile_tree exOps exOps_valid) 1 exGhost
   rw [h2, kindEnum_unique exFile_wf exFile_tree h1 exEnum]
   rfl
+
+/-- `exFile` with reference attributes (a unit-relative one, a `DW_FORM_ref_addr` into the other unit) and a
+    `.debug_pubnames` table -/
+def exFile2 : File :=
+  { exFile with
+    refAttr := fun cu o name =>
+      if cu = 0 ∧ o = 5 ∧ name = "DW_AT_type" then some (false, 7)
+      else if cu = 10 ∧ o = 15 ∧ name = "DW_AT_type" then some (true, 6) else none
+    pubnames := some [("pn5", 0, 5), ("pn16", 10, 16)] }
+
+theorem exFile2_wf : FileWF exFile2 [exCU0, exCU1] :=
+  { cuOff := exFile_wf.cuOff, chain := exFile_wf.chain, dieOff := exFile_wf.dieOff, dieLow := exFile_wf.dieLow }
+
+theorem exFile2_tree : TreeWF exFile2 [exCU0, exCU1] exT := { tree := exFile_tree.tree }
+
+def exOps2 : List Op := [.itNew (.siblings 0 6), .itNext 0, .ref 10 15 "DW_AT_type", .seek 3, .children 0 4,
+      .pubname "pn16", .itNext 0, .ref 0 5 "DW_AT_type", .itNew (.dies 10), .itNext 1]
+
+theorem exOps2_valid : ∀ o ∈ exOps2, OpValidT exFile2 [exCU0, exCU1] exT o := by
+    intro o ho
+    simp [exOps2] at ho
+    rcases ho with rfl | rfl | rfl | rfl | rfl | rfl | rfl | rfl | rfl | rfl
+    · exact ⟨_, ⟨exCU0, by simp, rfl⟩, (exLeaf 6 false, some exT0.d), by simp [exT, exT0, exLeaf, ents, entsF, DTree.d], rfl,
+        exT0, none, by simp [exT, exT0, ents], rfl, rfl⟩
+    · trivial
+    · refine ⟨⟨exCU1, by simp, rfl⟩, ?_⟩
+      intro o raw h
+      simp only [exFile2] at h
+      split at h
+      · cases h
+      · split at h
+        · injection h with h; injection h with _ h; subst h; show 6 < 22; decide
+        · cases h
+    · trivial
+    · exact ⟨exCU0, by simp, rfl, (exT0, none), by simp [exT, exT0, ents], rfl⟩
+    · intro tbl e hp hf
+      simp only [exFile2] at hp
+      injection hp with hp; subst hp
+      simp [List.find?] at hf
+      subst hf
+      exact ⟨exCU1, by simp, rfl⟩
+    · trivial
+    · refine ⟨⟨exCU0, by simp, rfl⟩, ?_⟩
+      intro o raw h
+      simp only [exFile2] at h
+      split at h
+      · cases h
+      · split at h
+        · rename_i h1 h2; exact absurd h2.1 (by decide)
+        · cases h
+    · exact ⟨_, ⟨exCU1, by simp, rfl⟩, rfl⟩
+    · trivial
+
+theorem exGhost2 : (ghost exOps2)[0 % (ghost exOps2).length]? = some (.siblings 0 6, 2) := by rfl
+
+theorem exEnum2 : KindEnum [exCU0, exCU1] exT (.siblings 0 6) [5, 7, 8] :=
+  ⟨⟨exCU0, by simp, rfl⟩, (exLeaf 6 false, some exT0.d), by simp [exT, exT0, exLeaf, ents, entsF, DTree.d], rfl,
+    exT0, none, by simp [exT, exT0, ents], rfl, rfl⟩
+
+/-- after a history with a partially consumed SIBLING generator, reference following inside a unit and across units
+    (`DW_FORM_ref_addr`), a pubnames lookup, a children walk, a seek and a second generator: reference following and
+    the pubnames lookup answer as on a fresh object, and the sibling generator of the entry at 6, asked twice before
+    (5, 7), now reports the third sibling -/
+example :
+    (step exFile2 (run exFile2 State.init exOps2) (.ref 10 15 "DW_AT_type")).1 = answer exFile2 (.ref 10 15 "DW_AT_type") ∧
+    (step exFile2 (run exFile2 State.init exOps2) (.pubname "pn5")).1 = answer exFile2 (.pubname "pn5") ∧
+    (step exFile2 (run exFile2 State.init exOps2) (.itNext 0)).1 = .ok (.nat 8) := by
+  refine ⟨answers_independent_of_history exFile2_wf exFile2_tree exOps2 exOps2_valid (exOps2_valid _ (by simp [exOps2])) trivial,
+    answers_independent_of_history exFile2_wf exFile2_tree exOps2 exOps2_valid ?_ trivial, ?_⟩
+  · intro tbl e hp hf
+    simp only [exFile2] at hp
+    injection hp with hp; subst hp
+    simp [List.find?] at hf
+    subst hf
+    exact ⟨exCU0, by simp, rfl⟩
+  · obtain ⟨l, h1, h2⟩ := step_itNext_T exFile2_wf exFile2_tree (invT_run exFile2_wf exFile2_tree exOps2 exOps2_valid) 0 exGhost2
+    rw [h2, kindEnum_unique exFile2_wf exFile2_tree h1 exEnum2]
+    rfl
+
+/-! ### fourth wave: the cache layer (abbreviation tables, line-program objects, CFI entries)
+
+  `Model/HistoryCaches.lean`: `xstep X xs op` runs the base step on the `File` whose DIE constructor uses what
+  `cu.get_abbrev_table()` returns IN STATE `xs` (`fileOf X xs`), and adds `_abbrevtable_cache` / `CompileUnit._abbrev_table`,
+  `_linetable_cache` with the `LineProgram` objects (header as it reads now, `_decoded_entries`) and `CallFrameInfo`
+  objects (`entries`, `_entry_cache`) as state, with operations on them.  `XWF X cs T`: `FileWF` and `TreeWF` of the
+  stateless file `pureFile X`; `LPWF` (units sharing a line program share the structs it is parsed with; decoding
+  does not change the header — this excludes exactly the known finding lineprogram-define-file-header); `CfiWF` (a
+  fresh parse of a CFI entry ends where the entry's length field says) and the reference enumeration of each CFI
+  section does not run out of the model's fuel.  `XInvT`: `InvT` of the base, every cached table / line program /
+  CFI entry is the pure parse at its key. -/
+
+theorem xinv_initial (X : XFile) (cs : List CU) (T : Nat → DTree) : XInvT X cs T [] XState.init := xinvT_init X cs T
+
+theorem xinv_step {X : XFile} {cs : List CU} {T : Nat → DTree} (w : XWF X cs T) {xs : XState} {g : Ghost}
+    (hinv : XInvT X cs T g xs) {op : XOp} (hv : XOpValid X cs T op) :
+    XInvT X cs T (xghostStep g op) (xstep X xs op).2 := xstep_invT w hinv hv
+
+theorem xinv_run {X : XFile} {cs : List CU} {T : Nat → DTree} (w : XWF X cs T) (ops : List XOp)
+    (hv : ∀ op ∈ ops, XOpValid X cs T op) : XInvT X cs T (xghost ops) (xrun X XState.init ops) :=
+  xrun_invT w ops _ [] (xinvT_init X cs T) hv
+
+/-- THE ABBREVIATION CACHES NEVER CHANGE A DIE: in every state satisfying the invariant the `File` the base machine
+    runs on (DIE constructor fed with what `cu.get_abbrev_table()` returns now — memo, shared cache entry or a new
+    parse) is the stateless file.  This discharges, for the abbreviation tables, the assumption of the base model
+    that `DIE(cu, stream, offset)` is pure in (file, offset). -/
+theorem die_parse_independent_of_abbrev_caches {X : XFile} {cs : List CU} {T : Nat → DTree} {xs : XState} {g : Ghost}
+    (hinv : XInvT X cs T g xs) : fileOf X xs = pureFile X := fileOf_eq hinv.ab
+
+/-- `Inv s → (xstep s op).1 = xanswer file op` for every query of the layer: the base queries (`Query`),
+    `get_abbrev_table` on a unit and on the DWARFInfo, `line_program_for_CU` with header and decoded entries,
+    `CFI_entries()` / `EH_CFI_entries()` and `get_entries()` on a `CallFrameInfo` that is kept -/
+theorem xanswer_refines {X : XFile} {cs : List CU} {T : Nat → DTree} (w : XWF X cs T) {xs : XState} {g : Ghost}
+    (hinv : XInvT X cs T g xs) {op : XOp} (hv : XOpValid X cs T op) (hq : XQuery op) :
+    (xstep X xs op).1 = xanswer X op :=
+  xstep_answer_eq w hinv (xinvT_init X cs T) hv hq
+
+theorem xanswers_independent_of_history {X : XFile} {cs : List CU} {T : Nat → DTree} (w : XWF X cs T) (ops : List XOp)
+    (hops : ∀ o ∈ ops, XOpValid X cs T o) {op : XOp} (hv : XOpValid X cs T op) (hq : XQuery op) :
+    (xstep X (xrun X XState.init ops) op).1 = xanswer X op :=
+  xanswer_refines w (xinv_run w ops hops) hv hq
+
+theorem xrepeated_query_equal {X : XFile} {cs : List CU} {T : Nat → DTree} (w : XWF X cs T) {xs : XState} {g : Ghost}
+    (hinv : XInvT X cs T g xs) {op : XOp} (hv : XOpValid X cs T op) (hq : XQuery op) :
+    (xstep X (xstep X xs op).2 op).1 = (xstep X xs op).1 :=
+  xstep_answer_eq w (xstep_invT w hinv hv) hinv hv hq
+
+/-- `cu.get_abbrev_table()` / `dwarfinfo.get_abbrev_table(off)`: the pure parse at the offset, in every state; hence
+    two units with the same `debug_abbrev_offset` get the same table whichever asked first and whatever was cached -/
+theorem abbrev_table_exact {X : XFile} {cs : List CU} {T : Nat → DTree} (w : XWF X cs T) {xs : XState} {g : Ghost}
+    (hinv : XInvT X cs T g xs) :
+    (∀ c ∈ cs, (xstep X xs (.abbrevCU c.cuOffset)).1 = (pureTable X c.cuOffset).map XAns.tbl) ∧
+    (∀ off, (xstep X xs (.abbrevAt off)).1
+        = (if off < X.abbrevSize then X.parseAbbrev off else .error .dwarfError).map XAns.tbl) :=
+  ⟨fun _ hc => xstep_abbrevCU w hinv hc, fun off => xstep_abbrevAt hinv off⟩
+
+theorem abbrev_table_shared {X : XFile} {cs : List CU} {T : Nat → DTree} (w : XWF X cs T) {xs xs' : XState} {g g' : Ghost}
+    (hinv : XInvT X cs T g xs) (hinv' : XInvT X cs T g' xs') {c c' : CU} (hc : c ∈ cs) (hc' : c' ∈ cs)
+    (h : X.abbrevOff c.cuOffset = X.abbrevOff c'.cuOffset) :
+    (xstep X xs (.abbrevCU c.cuOffset)).1 = (xstep X xs' (.abbrevCU c'.cuOffset)).1 := by
+  rw [xstep_abbrevCU w hinv hc, xstep_abbrevCU w hinv' hc']
+  unfold pureTable
+  rw [h]
+
+/-- `line_program_for_CU`: offset, header and (on request) decoded entries are the fresh parse / decoding at the
+    unit's `DW_AT_stmt_list`, whether the `LineProgram` object is new, cached by this or another unit, decoded or not -/
+theorem line_program_exact {X : XFile} {cs : List CU} {T : Nat → DTree} (w : XWF X cs T) {xs : XState} {g : Ghost}
+    (hinv : XInvT X cs T g xs) {c : CU} (hc : c ∈ cs) (decode : Bool) :
+    (xstep X xs (.lp c.cuOffset decode)).1
+        = (match topStmt X c with
+            | .error e => .error e
+            | .ok none => .ok .none
+            | .ok (some o) => pureLP X (X.lpKey c.cuOffset) o decode) :=
+  (xstep_lp w hinv hc decode).1
+
+/-- THE CFI ENTRY CACHE.  `_parse_entry_at(off)` in ANY state of `_entry_cache` that holds reference entries —
+    empty, partly filled by forward CIE pointers, or left behind by a `get_entries()` that raised — returns the
+    cache-free reference entry (an FDE carries the reference entry at the offset its CIE pointer designates, so all
+    FDEs designating one CIE share it), leaves the stream right behind the entry, and keeps the cache property. -/
+theorem cfi_entry_cache_exact {X : XFile} {eh : Bool} (wf : CfiWF X eh) (f : Nat) (off : Int) (cache : CCache)
+    (hc : CInv X eh cache) (hr : pureEnt X eh f off ≠ .error .outOfFuel) :
+    (centAt X eh f off cache).1 = (pureEnt X eh f off).map (fun e => (e, off.toNat + e.len)) ∧
+      CInv X eh (centAt X eh f off cache).2 :=
+  centAt_spec wf f off cache _ hc rfl hr
+
+/-- … and the ENTRY part needs no well-formedness at all: for arbitrary section contents, a cache hit returns what a
+    miss would build (`CfiWF` only enters where the next entry is looked for) -/
+theorem cfi_cache_hit_eq_miss {X : XFile} {eh : Bool} (f : Nat) (off : Int) (cache : CCache) (hc : CInv X eh cache)
+    (hr : pureEnt X eh f off ≠ .error .outOfFuel) :
+    (centAt X eh f off cache).1.map (·.1) = pureEnt X eh f off ∧ CInv X eh (centAt X eh f off cache).2 :=
+  centAt_ent f off cache _ hc rfl hr
+
+/-- `get_entries()` on a `CallFrameInfo` in every state (fresh, answered before, after attempts that raised), and
+    `CFI_entries()` / `EH_CFI_entries()` (a new object per call): the reference list of the section -/
+theorem cfi_entries_exact {X : XFile} {cs : List CU} {T : Nat → DTree} (w : XWF X cs T) {xs : XState} {g : Ghost}
+    (hinv : XInvT X cs T g xs) (eh : Bool) :
+    (xstep X xs (.cfi eh)).1 = (pureAll X eh).map XAns.cfi ∧ (xstep X xs (.cfiObj eh)).1 = (pureAll X eh).map XAns.cfi :=
+  xstep_cfi w hinv eh
+
+theorem cfi_object_exact {X : XFile} {eh : Bool} (wf : CfiWF X eh) (hfuel : pureAll X eh ≠ .error .outOfFuel) {o : CfiObj}
+    (ho : CObjInv X eh o) : (cfiGetEntries X eh o).1 = pureAll X eh ∧ CObjInv X eh (cfiGetEntries X eh o).2 :=
+  cfiGetEntries_spec wf hfuel ho
+
+/-- FDE → CIE sharing: the CIE object of an FDE is the reference entry at the designated offset -/
+theorem cfi_fde_cie_shared {X : XFile} {eh : Bool} {f : Nat} {off : Int} {s p : Nat} {c : CEnt}
+    (h : pureEnt X eh f off = .ok (.fde off s p c)) :
+    ∃ ptr f', X.cfiHead eh off = .ok (.fde ptr) ∧ pureEnt X eh f' ptr = .ok c :=
+  pureEnt_fde_cie h
+
+/-! ### non-vacuity of the cache layer -/
+
+/-- `exFile2` with one abbreviation table shared by both units, a line program behind the first unit's top DIE, and
+    a CFI section whose FDE (at 0) points FORWARD to its CIE (at 8), so that `_parse_entries` meets the CIE in the cache -/
+def exX : XFile :=
+  { skel := exFile2
+    ctor := fun cu off tbl => match tbl with | .ok 7 => exFile2.parseDIE cu off | .ok _ => .error .assertion | .error e => .error e
+    abbrevOff := fun _ => 0
+    abbrevSize := 10
+    parseAbbrev := fun o => if o = 0 then .ok 7 else .error .elfParseError
+    lpKey := fun _ => 0
+    lpParse := fun _ o => if o = 0 then .ok 100 else .error .elfParseError
+    lpDecode := fun _ o => if o = 0 then .ok (200, 100) else .error .elfParseError
+    cfiSize := fun _ => 20
+    cfiHead := fun _ off => if off = 0 then .ok (.fde 8) else if off = 8 then .ok (.cie ⟨12, 20, 1⟩) else .error .elfParseError
+    cfiFde := fun _ off _ _ => if off = 0 then .ok ⟨8, 8, 2⟩ else .error .elfParseError }
+
+theorem exX_pure : pureFile exX = exFile2 := rfl
+
+theorem exX_cfi (eh : Bool) : pureAll exX eh = .ok [.fde 0 8 2 (.cie 8 12 1), .cie 8 12 1] := by
+  cases eh <;> rfl
+
+theorem exX_wf : XWF exX [exCU0, exCU1] exT where
+  file := exFile2_wf
+  tree := exFile2_tree
+  lp := {
+    share := fun _ _ _ _ _ _ _ => rfl
+    stable := by
+      intro k o h e h' h1 h2
+      simp only [exX] at h1 h2
+      split at h1
+      · simp only [*, if_true] at h2
+        injection h1 with h1; injection h2 with h2; injection h2 with _ h2
+        rw [← h1, ← h2]
+      · cases h1 }
+  cfi := fun eh => {
+    zero := by
+      intro off p h
+      simp only [exX] at h
+      split at h
+      · cases h
+      · split at h <;> cases h
+    cie := by
+      intro off raw h
+      simp only [exX] at h
+      split at h
+      · cases h
+      · split at h
+        · rename_i h8
+          injection h with h; injection h with h
+          subst h h8; rfl
+        · cases h
+    fde := by
+      intro off t1 t2 raw h
+      simp only [exX] at h
+      split at h
+      · rename_i h0
+        injection h with h
+        subst h h0; rfl
+      · cases h }
+  cfiFuel := fun eh => by rw [exX_cfi]; simp
+
+def exXOps : List XOp := [.cfiObj false, .base (.itNew (.siblings 0 6)), .abbrevAt 0, .lp 0 false, .base (.itNext 0),
+  .base (.ref 10 15 "DW_AT_type"), .lp 0 true, .cfi true, .abbrevCU 10, .base (.seek 3), .base (.children 0 4)]
+
+theorem exXOps_valid : ∀ o ∈ exXOps, XOpValid exX [exCU0, exCU1] exT o := by
+  intro o ho
+  simp [exXOps] at ho
+  rcases ho with rfl | rfl | rfl | rfl | rfl | rfl | rfl | rfl | rfl | rfl | rfl
+  · trivial
+  · exact exOps2_valid (.itNew (.siblings 0 6)) (by simp [exOps2])
+  · trivial
+  · exact ⟨exCU0, by simp, rfl⟩
+  · exact exOps2_valid (.itNext 0) (by simp [exOps2])
+  · exact exOps2_valid (.ref 10 15 "DW_AT_type") (by simp [exOps2])
+  · exact ⟨exCU0, by simp, rfl⟩
+  · trivial
+  · exact ⟨exCU1, by simp, rfl⟩
+  · exact exOps2_valid (.seek 3) (by simp [exOps2])
+  · exact exOps2_valid (.children 0 4) (by simp [exOps2])
+
+/-- after a history that fills every cache (a kept `CallFrameInfo`, the shared abbreviation table through a DIE parse
+    and through direct lookups, the line program first by its header and then decoded) interleaved with a partially
+    consumed sibling generator, reference following, a seek and a children walk: the line program (header and entries),
+    the other unit's abbreviation table, the kept CFI object and a DIE lookup answer as on a fresh object — with the
+    values the pure side prescribes -/
+example :
+    (xstep exX (xrun exX XState.init exXOps) (.lp 0 true)).1 = xanswer exX (.lp 0 true) ∧
+    (xstep exX (xrun exX XState.init exXOps) (.lp 0 true)).1 = .ok (.lp 0 100 (some 200)) ∧
+    (xstep exX (xrun exX XState.init exXOps) (.abbrevCU 0)).1 = .ok (.tbl 7) ∧
+    (xstep exX (xrun exX XState.init exXOps) (.cfiObj false)).1
+      = .ok (.cfi [.fde 0 8 2 (.cie 8 12 1), .cie 8 12 1]) ∧
+    (xstep exX (xrun exX XState.init exXOps) (.base (.die 10 16))).1 = xanswer exX (.base (.die 10 16)) := by
+  have hinv := xinv_run exX_wf exXOps exXOps_valid
+  refine ⟨xanswers_independent_of_history exX_wf exXOps exXOps_valid ⟨exCU0, by simp, rfl⟩ trivial, ?_, ?_, ?_,
+    xanswers_independent_of_history exX_wf exXOps exXOps_valid (show OpValidT exFile2 [exCU0, exCU1] exT (.die 10 16) from ⟨exCU1, by simp, rfl⟩) trivial⟩
+  · exact (line_program_exact exX_wf hinv (c := exCU0) (by simp) true).trans rfl
+  · exact ((abbrev_table_exact exX_wf hinv).1 exCU0 (by simp)).trans rfl
+  · rw [(cfi_entries_exact exX_wf hinv false).2, exX_cfi]; rfl
 
 end PyElf.Props.C10
